@@ -47,6 +47,8 @@ func runCase2(f []string) (string, bool) {
 		return runFrame(f), true
 	case "hist":
 		return runHist(f), true
+	case "strhist":
+		return runStrHist(f), true
 	}
 	return runCase3(f)
 }
@@ -102,8 +104,12 @@ func runFrame(f []string) string {
 		for i := range full {
 			full[i] = 'Z'
 		}
-		if bp := d; len(bp) > 0 {
-			_ = bp
+		// also the buffer as handed back through the pointer (it may have been re-allocated)
+		if f[3] != "nil" {
+			bb := d[:cap(d)]
+			for i := range bb {
+				bb[i] = 'Z'
+			}
 		}
 		if str != snap {
 			return "RESULT-ALIASED"
@@ -347,4 +353,75 @@ func jsonStringOracle(data []byte) ([]byte, int, bool) {
 		return nil, 0, false
 	}
 	return []byte(s), int(dec.InputOffset()), true
+}
+
+// strhist <cap|-1> <rs|dec:hex> ... : ReadString / DecodeString calls sharing ONE scratch buffer
+// (cap -1: nil pointer).  Every returned string and every stored target is snapshotted; after
+// each later call, and after the buffer and the inputs have been overwritten, earlier results
+// must be unchanged (C16), and a failing DecodeString must leave its target alone (C12).
+func runStrHist(f []string) string {
+	capn, _ := strconv.Atoi(f[1])
+	var bufp *[]byte
+	if capn >= 0 {
+		b := make([]byte, 0, capn)
+		bufp = &b
+	}
+	var outs []string
+	var got []*string
+	var snaps []string
+	bad := ""
+	target := "initial-target"
+	for _, c := range f[2:] {
+		parts := strings.Split(c, ":")
+		data := unhex(parts[1])
+		switch parts[0] {
+		case "rs":
+			v, p, err := rjson.ReadString(data, bufp)
+			if err != nil {
+				outs = append(outs, "err")
+			} else {
+				outs = append(outs, fmt.Sprintf("ok_%d_%s", p, hx([]byte(v))))
+				vv := v
+				got = append(got, &vv)
+				snaps = append(snaps, strings.Clone(v))
+			}
+		case "dec":
+			before := strings.Clone(target)
+			p, err := rjson.DecodeString(data, &target, bufp)
+			if err != nil {
+				outs = append(outs, "err")
+				if target != before {
+					bad = "TARGET-CHANGED-ON-ERROR"
+				}
+			} else {
+				outs = append(outs, fmt.Sprintf("ok_%d_%s", p, hx([]byte(target))))
+				tv := target
+				got = append(got, &tv)
+				snaps = append(snaps, strings.Clone(target))
+			}
+		}
+		for i := range data {
+			data[i] = '#'
+		}
+		for i := range got {
+			if *got[i] != snaps[i] {
+				bad = fmt.Sprintf("EARLIER-STRING-CHANGED %d", i)
+			}
+		}
+	}
+	if bufp != nil {
+		bb := (*bufp)[:cap(*bufp)]
+		for i := range bb {
+			bb[i] = '#'
+		}
+		for i := range got {
+			if *got[i] != snaps[i] {
+				bad = fmt.Sprintf("STRING-ALIASES-BUFFER %d", i)
+			}
+		}
+	}
+	if bad == "" {
+		bad = "STABLE"
+	}
+	return strings.Join(outs, " ; ") + " ; " + bad
 }
